@@ -75,6 +75,42 @@ pub fn run(args: &Args) -> Report {
     });
     total.merge(rep);
 
+    // (1b) high-difficulty triples from the committed cache (ground once, for minutes): difficulties
+    // 33+ cannot be ground inside a check. The cache only supplies inputs; the oracle recomputes.
+    if let Some(path) = args.get("powcache").map(|x| x.to_string()) {
+        match std::fs::read_to_string(&path).ok().and_then(|t| serde_json::from_str::<serde_json::Value>(&t).ok()) {
+            Some(v) => {
+                let fam = if kind.is_keccak() { "keccak" } else { "blake" };
+                for e in v["entries"].as_array().cloned().unwrap_or_default() {
+                    if e["hash"].as_str() != Some(fam) {
+                        continue;
+                    }
+                    let (Some(dh), Some(n), Some(nonce)) = (e["digest"].as_str(), e["n_bits"].as_u64(), e["nonce"].as_u64()) else { continue };
+                    let Ok(df) = Felt::from_hex(dh) else { continue };
+                    let digest = df.to_bytes_be();
+                    let n = n as u8;
+                    compare(&mut total, kind, &digest, n, nonce, "cache");
+                    let ok = pow_ok(kind, &digest, n, nonce);
+                    total.inc(&format!("cache.n_bits_{n}.{}", if ok { "oracle_accept" } else { "oracle_reject" }));
+                    if ok && n >= 33 {
+                        total.inc("cache.accepting_triples_at_33_bits_or_more");
+                        // through commit as well: accepted, nonce absorbed
+                        let mut t = Transcript::new(df);
+                        let mut m = SpongeModel::new(df);
+                        let r = UnsentCommitment { nonce }.commit(&mut t, &Config { n_bits: n });
+                        m.absorb_u64(nonce);
+                        if r.is_err() {
+                            total.violation("C09|commit-rejected-good-nonce", "commit rejected a cached nonce that the oracle accepts", json!({"digest": dh, "n_bits": n, "nonce": nonce}));
+                        } else if *t.digest() != m.digest {
+                            total.violation("C09|commit-did-not-absorb-nonce", "after a successful commit the transcript is not absorb_u64(nonce) of the previous state", json!({"n_bits": n, "nonce": nonce}));
+                        }
+                    }
+                }
+            }
+            None => total.note(&format!("pow cache {path} not readable; high-difficulty acceptances not sampled")),
+        }
+    }
+
     // (2) random triples over the whole difficulty range 0..=128
     let n_random: u64 = args.u64("n", if thorough { 200_000 } else { 20_000 });
     let rep = par_run(n_threads(), n_random, |i, rep| {
